@@ -34,14 +34,20 @@ def main():
         rnd = sys.argv[sys.argv.index("--round") + 1]
         args = [a for a in args if a != rnd]
     base = f"/tmp/seed{rnd}-{prop}/seed"
-    muts = [a for a in args[1:]] or sorted(os.listdir(base))
+    fromrepo = not os.path.isdir(base)      # scratch worktree gone: re-evaluate the copies kept under seeded/
+    if fromrepo:
+        pref = f"{prop}-{('r' + rnd) if rnd else ''}m"
+        names = sorted(d for d in os.listdir(os.path.join(VERIF, "seeded")) if d.startswith(pref))
+        muts = [a for a in args[1:]] or [d[len(pref) - 1:] for d in names]
+    else:
+        muts = [a for a in args[1:]] or sorted(os.listdir(base))
     wt = f"/tmp/seedrun-{prop}"
     sh(["git", "-C", "/repo", "worktree", "remove", "--force", wt])
     rc, out = sh(["git", "-C", "/repo", "worktree", "add", "--detach", wt, "HEAD"])
     env = dict(os.environ, PYTHONPATH=f"{wt}/src", PYTHONHASHSEED="0")
     results = []
     for m in muts:
-        d = os.path.join(base, m)
+        d = os.path.join(VERIF, "seeded", f"{prop}-{('r' + rnd) if rnd else ''}{m}") if fromrepo else os.path.join(base, m)
         if not os.path.exists(os.path.join(d, "patch.diff")):
             continue
         sh(["git", "-C", wt, "checkout", "--", "."])
@@ -75,7 +81,8 @@ def main():
         dst = os.path.join(VERIF, "seeded", res["mutation"])
         os.makedirs(dst, exist_ok=True)
         for f in ("patch.diff", "demo.py"):
-            shutil.copy(os.path.join(d, f), os.path.join(dst, f))
+            if os.path.abspath(d) != os.path.abspath(dst):
+                shutil.copy(os.path.join(d, f), os.path.join(dst, f))
         meta = json.load(open(os.path.join(d, "meta.json")))
         meta["confirmed"] = {k: res[k] for k in ("repo_head", "demo_clean_rc", "demo_mutated_rc", "suite", "suite_baseline")}
         meta["ran"] = [f"git apply patch.diff on a scratch worktree of /repo HEAD {res['repo_head']}",
